@@ -91,11 +91,17 @@ func orderPolicy(r *sim.Rand) string {
 // one every `every` ops, always one at the end. restartP is the share of
 // restarts among them.
 func sprinkleSaves(r *sim.Rand, ops []sim.Op, d int, every int, restartP float64, procRestartP float64) []sim.Op {
+	return sprinkleSavesOpt(r, ops, d, every, restartP, procRestartP, true)
+}
+
+// sprinkleSavesOpt: failing saves are injected through process-wide hooks of the file-system seam, so a
+// workload whose tasks run concurrently must not contain them (failingSaves=false).
+func sprinkleSavesOpt(r *sim.Rand, ops []sim.Op, d int, every int, restartP float64, procRestartP float64, failingSaves bool) []sim.Op {
 	var out []sim.Op
 	for i, op := range ops {
 		out = append(out, op)
 		if i == len(ops)-1 || r.Intn(every) == 0 {
-			if r.Chance(0.12) { // a Save that fails at its k-th file-system call (must change nothing)
+			if failingSaves && r.Chance(0.12) { // a Save that fails at its k-th file-system call (must change nothing)
 				out = append(out, sim.Op{K: "savefail", D: d, I: []int{r.Intn(2)}})
 			}
 			switch {
